@@ -34,26 +34,28 @@ structure Flags where
   gotPass : Bool := false
   gotHurry : Bool := false
   emptyIdent : Bool := false
+  timedOut : Bool := false
   deriving Repr, BEq, DecidableEq, Inhabited
 
 /-- `!BITSET_H_ANDNOT(a, b)`: every flag of `a` is in `b` -/
 def Flags.subset (a b : Flags) : Bool :=
   (!a.responded || b.responded) && (!a.softDone || b.softDone) && (!a.gotHost || b.gotHost) &&
   (!a.gotIdent || b.gotIdent) && (!a.gotNick || b.gotNick) && (!a.gotUser || b.gotUser) &&
-  (!a.gotPass || b.gotPass) && (!a.gotHurry || b.gotHurry) && (!a.emptyIdent || b.emptyIdent)
+  (!a.gotPass || b.gotPass) && (!a.gotHurry || b.gotHurry) && (!a.emptyIdent || b.emptyIdent) &&
+  (!a.timedOut || b.timedOut)
 
 def Flags.or (a b : Flags) : Flags :=
   { responded := a.responded || b.responded, softDone := a.softDone || b.softDone,
     gotHost := a.gotHost || b.gotHost, gotIdent := a.gotIdent || b.gotIdent,
     gotNick := a.gotNick || b.gotNick, gotUser := a.gotUser || b.gotUser,
     gotPass := a.gotPass || b.gotPass, gotHurry := a.gotHurry || b.gotHurry,
-    emptyIdent := a.emptyIdent || b.emptyIdent }
+    emptyIdent := a.emptyIdent || b.emptyIdent, timedOut := a.timedOut || b.timedOut }
 
 /-- bit positions as in `enum iauth_flags` (for the `%#x` in stale-request reports; unused otherwise) -/
 def Flags.toNat (f : Flags) : Nat :=
   (if f.responded then 1 else 0) + (if f.softDone then 2 else 0) + (if f.gotHost then 4 else 0) +
   (if f.gotIdent then 8 else 0) + (if f.gotNick then 16 else 0) + (if f.gotUser then 32 else 0) +
-  (if f.gotPass then 64 else 0) + (if f.gotHurry then 128 else 0) + (if f.emptyIdent then 256 else 0)
+  (if f.gotPass then 64 else 0) + (if f.gotHurry then 128 else 0) + (if f.emptyIdent then 256 else 0) + (if f.timedOut then 512 else 0)
 
 inductive SvcTy where
   | login | loginIpr | dronecheck | combined
